@@ -468,6 +468,11 @@ fn tokenize(input: &str) -> Result<Vec<Token>> {
     Ok(tokens)
 }
 
+/// Maximum nesting depth of an expression (parentheses, unary minus,
+/// function calls and chained variable lookups all count).
+/// The parser is recursive, so unbounded nesting would exhaust the stack.
+const MAX_EXPR_DEPTH: usize = 64;
+
 pub struct EvalState<'a> {
     tokens: Vec<Token>,
     index: usize,
@@ -475,6 +480,8 @@ pub struct EvalState<'a> {
     // Used to check for circular variable references
     // Vec - likely to be few vars, and need stack behaviour
     checked_vars: Vec<String>,
+    // Current nesting depth, including that of any enclosing variable lookups
+    depth: usize,
 }
 
 impl<'a> EvalState<'a> {
@@ -488,6 +495,7 @@ impl<'a> EvalState<'a> {
             index: 0,
             context,
             checked_vars: Vec::from(checked_vars),
+            depth: 0,
         }
     }
 
@@ -538,6 +546,7 @@ impl<'a> EvalState<'a> {
                 Ok(ExprValue::List(Vec::new()))
             } else {
                 let mut es = EvalState::new(tokens, self.context, &self.checked_vars);
+                es.depth = self.depth;
                 let e = expr_list(&mut es)?;
                 if es.peek().is_none() {
                     Ok(e)
@@ -744,6 +753,18 @@ fn factor(eval_state: &mut EvalState) -> Result<ExprValue> {
 fn primary(eval_state: &mut EvalState) -> Result<ExprValue> {
     #[cfg(feature = "verif-hooks")]
     let _verif_depth = crate::verif::ExprDepthGuard::enter();
+    if eval_state.depth >= MAX_EXPR_DEPTH {
+        return Err(SvgdxError::ParseError(format!(
+            "Expression nesting exceeds {MAX_EXPR_DEPTH} levels"
+        )));
+    }
+    eval_state.depth += 1;
+    let result = primary_inner(eval_state);
+    eval_state.depth -= 1;
+    result
+}
+
+fn primary_inner(eval_state: &mut EvalState) -> Result<ExprValue> {
     match eval_state.next() {
         Some(Token::Number(x)) => Ok(ExprValue::Number(x)),
         Some(Token::String(s)) => Ok(ExprValue::String(s)),
